@@ -122,7 +122,7 @@ impl Property for C08 {
         "C08"
     }
     fn rule(&self) -> &'static str {
-        "profile `expr`: programs of `let`s + 8 rows `0 X X (expr)` (the expression sits in the row, or in a `let` before it, or in a `let` inside a while body that runs once); expression trees of depth <= 6 over all 16 binary and 3 unary operators, ite, literals in every radix, variables bound to 64-bit boundary values (three of them called ite, random and signExt), device outputs (boundary palette), equal-precedence chains, boundary shift counts, one row in six from a list of 20 shapes that invite a wrong algebraic rewrite at the edges of the 64-bit range (`a - -b / c`, `(a * c) / c`, `a / -1`, `(a + b) - b`, `(a / c) * c + a % c`, ... over MIN, MAX, -1, 0, 1 and the variables), one program in forty with 48 rows that are all `ite`s; hazards only in unselected ite branches (division by zero, signExt, random, and a variable that is bound only in a `while(0)` body and so has no value at run time); printed with minimal parentheses by the stated precedence table or redundant groups. Oracle: a program the parser rejects while it accepts the same program with every expression replaced by 0 is a violation (a valid expression was turned down); independent evaluator on the generating tree vs the untruncated expected value of a 64-bit output column. Non-trivial: an expression with >= 3 operators spanning >= 2 precedence levels, or an equal-precedence non-commutative chain, or unary under binary; distinct by source text."
+        "profile `expr`: programs of `let`s + 8 rows `0 X X (expr)` (the expression sits in the row, or in a `let` before it, or in a `let` inside a while body that runs once); expression trees of depth <= 6 over all 16 binary and 3 unary operators, ite, literals in every radix, variables bound to 64-bit boundary values (three of them called ite, random and signExt), device outputs (boundary palette), equal-precedence chains, boundary shift counts, one row in six from a list of 20 shapes that invite a wrong algebraic rewrite at the edges of the 64-bit range (`a - -b / c`, `(a * c) / c`, `a / -1`, `(a + b) - b`, `(a / c) * c + a % c`, ... over MIN, MAX, -1, 0, 1 and the variables), one row in twelve an expression that cannot be evaluated although its value would not depend on the failing operand (`0 & (1/0)`, `zz * (7 % zz)` with zz = 0, `~0 | (1/0)`: the row must be an error item - only ite is lazy - and the caller goes on to the next row), one program in forty with 48 rows that are all `ite`s; hazards only in unselected ite branches (division by zero, signExt, random, and a variable that is bound only in a `while(0)` body and so has no value at run time); printed with minimal parentheses by the stated precedence table or redundant groups. Oracle: a program the parser rejects while it accepts the same program with every expression replaced by 0 is a violation (a valid expression was turned down); independent evaluator on the generating tree vs the untruncated expected value of a 64-bit output column. Non-trivial: an expression with >= 3 operators spanning >= 2 precedence levels, or an equal-precedence non-commutative chain, or unary under binary; distinct by source text."
     }
     fn cases(&self, tier: Tier) -> u64 {
         match tier {
@@ -134,7 +134,7 @@ impl Property for C08 {
         [700, 8, 8]
     }
     fn required_classes(&self) -> Vec<&'static str> {
-        vec!["chain", "unary-under-binary", "levels>=3", "lazy-hazard", "lazy-unassigned-variable", "via-let", "via-let-in-while", "identity-template", "long-program", "device-read", "radix-nondecimal", "level-1", "level-2", "level-3", "level-4", "level-5", "level-6", "level-7", "level-8"]
+        vec!["chain", "unary-under-binary", "levels>=3", "lazy-hazard", "lazy-unassigned-variable", "via-let", "via-let-in-while", "identity-template", "strictness-template", "long-program", "device-read", "radix-nondecimal", "level-1", "level-2", "level-3", "level-4", "level-5", "level-6", "level-7", "level-8"]
     }
     fn assumptions(&self) -> Vec<&'static str> {
         vec!["the evaluator in harness/src/ri.rs (eval_binop/eval_unop/eval_expr) renders the C08 statement correctly"]
@@ -157,9 +157,10 @@ impl Property for C08 {
         let nvars = ch.upto(9);
         // `nvz` is a variable for the parser but never gets a value: it only occurs in
         // unselected ite branches
-        let mut stmts = vec![Stmt::While(Expr::lit(0), vec![Stmt::Let(LAZY_UNASSIGNED.into(), Expr::lit(1))])];
+        let mut stmts = vec![Stmt::While(Expr::lit(0), vec![Stmt::Let(LAZY_UNASSIGNED.into(), Expr::lit(1))]), Stmt::Let("zz".into(), Expr::lit(0))];
         let mut vars: Vec<(String, bool)> = vec![];
         let mut values: BTreeMap<String, i64> = BTreeMap::new();
+        values.insert("zz".into(), 0);
         // (a variable may be called like a function: it is one wherever no `(` follows)
         for name in ["a", "b", "ite", "c", "random", "d", "signExt", "x1"].iter().take(nvars) {
             let v = match ch.weighted(&[3, 2, 2]) {
@@ -181,10 +182,26 @@ impl Property for C08 {
         for id in 0..nrows {
             let env = ExprEnv { vars: &vars, outs: &outs, maybe: &[], cfg: &cfg };
             let d = 1 + ch.upto(cfg.max_depth as usize) as u32;
+            let mut strict = false;
             let e = if long {
                 let dd = 1 + ch.upto(2) as u32;
                 let inner = gen_expr(&mut ch, dd, &env);
                 Expr::Ite(Box::new(Expr::lit(1 + ch.upto(3) as u64)), Box::new(inner), Box::new(Expr::lit(0)))
+            } else if ch.chance(1, 12) {
+                // both operands of a binary operator are evaluated whatever the other one's value
+                // is (only ite is lazy): these cannot be evaluated, and the row is an error item
+                out.class("strictness-template");
+                strict = true;
+                let z = || Expr::var("zz");
+                let grp = |e: Expr| Expr::Group(Box::new(e));
+                match ch.upto(6) {
+                    0 => Expr::bin(BinOp::And, Expr::lit(0), grp(Expr::bin(BinOp::Div, Expr::lit(1), Expr::lit(0)))),
+                    1 => Expr::bin(BinOp::Mul, Expr::lit(0), grp(Expr::bin(BinOp::Rem, Expr::lit(7), Expr::lit(0)))),
+                    2 => Expr::bin(BinOp::Or, Expr::konst(-1), grp(Expr::bin(BinOp::Div, Expr::lit(1), Expr::lit(0)))),
+                    3 => Expr::bin(BinOp::And, z(), grp(Expr::bin(BinOp::Div, Expr::lit(5), z()))),
+                    4 => Expr::bin(BinOp::Mul, grp(Expr::bin(BinOp::Mul, z(), Expr::lit(3))), grp(Expr::bin(BinOp::Rem, Expr::lit(7), z()))),
+                    _ => Expr::bin(BinOp::Or, grp(Expr::bin(BinOp::Sub, z(), Expr::lit(1))), grp(Expr::bin(BinOp::Rem, Expr::lit(1), z()))),
+                }
             } else if ch.chance(1, 6) {
                 out.class("identity-template");
                 identity_template(&mut ch, &env)
@@ -193,7 +210,7 @@ impl Property for C08 {
             };
             // the value reaches the row directly, or through a `let` (the same expression in
             // statement position), or as the bound-like operand of a loop that runs once
-            let entry = match ch.weighted(&[4, 2, 1]) {
+            let entry = match if strict { 0 } else { ch.weighted(&[4, 2, 1]) } {
                 0 => Entry::Paren(e.clone()),
                 1 => {
                     stmts.push(Stmt::Let("tv".into(), e.clone()));
@@ -283,7 +300,7 @@ impl Property for C08 {
         let Some(tc) = load_wellformed(&mut out, "c08", &text, &sigs) else {
             return out;
         };
-        let real = run_real(&tc, &sigs, &spec, &RunOpts { max_next: nrows + 1, ..Default::default() });
+        let real = run_real(&tc, &sigs, &spec, &RunOpts { max_next: nrows + 1, continue_after_error: true, ..Default::default() });
         if let Some(RealItem::Panic(p)) = &real.ctor {
             out.fail(p.key(), format!("constructor panicked: {p}"));
             return out;
@@ -309,6 +326,24 @@ impl Property for C08 {
             let want = eval_expr(e, &mut MapResolver { vars: Some(&values), outs: &outs_now });
             let want = match want {
                 Ok(v) => v,
+                // a strictness template: the row must be an error item
+                Err(Hazard::DivZero) => {
+                    match real.items.get(k) {
+                        Some(RealItem::RuntimeErr(_)) => {}
+                        Some(RealItem::Panic(p)) => {
+                            out.fail(p.key(), format!("row {k}: ({}) panicked: {p}", expr_text(e)));
+                            return out;
+                        }
+                        other => {
+                            out.fail(
+                                "c08:operand-not-evaluated",
+                                format!("row {k}: ({}) cannot be evaluated (an operand divides by zero; every operator but ite evaluates both operands), yet it gave {:?}", expr_text(e), other.map(|o| o.short())),
+                            );
+                            return out;
+                        }
+                    }
+                    continue;
+                }
                 Err(h) => {
                     // the profile is total: this would be a harness bug, not a verdict
                     out.discard("hazard-in-total-expression");
